@@ -95,9 +95,9 @@ PROPS["C10"] = dict(
     design_ref="DESIGN.md section 5, C10",
     technique="contract-based deductive verification (Verus) of the index arithmetic over vstd's UTF-8 theory; bounded Kani harnesses for the iterator-chain functions and an exhaustive native enumeration of short texts for the clauses outside every contract (error construction and rendering)",
     level_text="Unbounded proof: LineIndex::new records exactly the offsets after every newline character (loop invariant over chars()); LineIndex::line_col returns (1 + newlines before the offset, 1 + characters since the last newline) for every boundary offset inside the indexed prefix; Span::new / Position::new succeed exactly on ordered boundary offsets; merge_spans; line_of and LinesSpan::next yield exactly the line [ls, le) containing the cursor and advance to the start of the next line - the last two given the assumed contracts of find_line_start / find_line_end.",
-    level_note="Assumed: find_line_start / find_line_end (char_indices/rev/skip_while/find chains), std partition_point and chars().count() contracts, str range indexing helper. Outside every contract: Position::line_col (Peekable), Error::new_from_pos/new_from_span and Display (format!, String building) - decided only by bounded stand-ins: Kani harnesses on strings of <= 3 characters and the lines_search enumeration (every text of <= 5 characters over a 6-character mixed alphabet, every offset and offset pair, all access paths, rendered marker position).",
+    level_note="Assumed: find_line_start / find_line_end (char_indices/rev/skip_while/find chains), std partition_point and chars().count() contracts, str range indexing helper. Position::line_col is verified from its body (chars().peekable() through assumed std contracts of core::iter::Peekable, R31/R32): it returns exactly (1 + newlines, 1 + characters since the last newline) of the characters before the offset. Outside every contract: Error::new_from_pos/new_from_span and Display (format!, String building) - decided only by bounded stand-ins: Kani harnesses on strings of <= 3 characters and the lines_search enumeration (every text of <= 5 characters over a 6-character mixed alphabet, every offset and offset pair, all access paths, rendered marker position).",
     assumptions=["Verus + Z3 + vstd (UTF-8 theory); extractor with rewrites R3,R5,R6,R11,R16,R17,R23",
-                 "std contracts on trusted helpers: partition_point (on a sorted Vec<usize>), chars().count(), str range indexing, str::get -> SliceIndex::get, core::cmp::min/max on usize",
+                 "std contracts on trusted helpers: core::iter::Peekable (peekable / next / peek: the remaining items), partition_point (on a sorted Vec<usize>), chars().count(), str range indexing, str::get -> SliceIndex::get, core::cmp::min/max on usize",
                  "ASSUMED contracts: Position::find_line_start == ls, Position::find_line_end == le (byte-level line specs)"],
     not_covered=["Position::line_col (chars().peekable()): not in the Verus subset; bounded harness planned",
                  "Error::new_from_pos / new_from_span / Display rendering: format!/String code, not covered",
@@ -114,7 +114,7 @@ PROPS["C16"] = dict(
     assumptions=["Kani 0.68 / CBMC 6.11 / CaDiCaL are sound on loop-free code; rustc MIR semantics as modelled by Kani",
                  "the member lists of the eight grouped categories are taken from UAX #44 (specification side), written in vx/gen_unicode.py"],
     not_covered=["name clause: not provable deductively here (a Kani harness for a name deep in the BY_NAME tables did not finish in 15 min). Stand-in: exhaustive native enumeration of every advertised name x every scalar value through unicode::by_name and unicode_property_names on the real code (reported under bounded_checks, never counted as discharged). The validator's built-in table, the VM's and the generator's dispatch are exercised by the same enumeration (validator accepts each name; VM and a derive-generated parser agree with the function at every range edge and on a stride sample)",
-                 "script disjointness runs in the thorough tier only (about 4 minutes)"],
+                 "script disjointness: the complete Kani harness runs in the thorough tier only (about 4 minutes); the quick tier runs the clause as an exhaustive native sweep (enumerative, not counted as proved)"],
 )
 
 NOT_APPLICABLE = {
